@@ -31,6 +31,9 @@ OPS = {
     "alias_pub": ("function", lambda o: o.alias_pub()),               # `alias_pub = pub` in the class body
     "__radd__": ("function", lambda o: 1 + o),                        # `__radd__ = __add__`                             # an `async def` public method
     "classm": ("classmethod", lambda o: o.classm()),
+    "__delattr__": ("function", lambda o: delattr(o, "whatever")),     # deleting is a public operation like any other dunder
+    "__getitem__": ("function", lambda o: o[0]),
+    "__contains__": ("function", lambda o: 3 in o),
     "__setattr__": ("function", lambda o: setattr(o, "y", 2)),
     "assign": ("assign", lambda o: setattr(o, "z", 3)),          # attribute assignment without own __setattr__
 }
@@ -61,6 +64,9 @@ SRC = {
     "alias_pub": "def _al_impl_pub(self): return 1\nalias_pub = _al_impl_pub\nalias_pub.__name__ = 'al_impl_pub'",
     "__radd__": "def __add__(self, other): return 5\n__radd__ = __add__",
     "classm": "@classmethod\ndef classm(cls): return 1",
+    "__delattr__": "def __delattr__(self, k): pass",
+    "__getitem__": "def __getitem__(self, k): return 1",
+    "__contains__": "def __contains__(self, k): return False",
     "__setattr__": "def __setattr__(self, k, v): object.__setattr__(self, k, v)",
     "assign": "",
 }
@@ -108,9 +114,15 @@ def run(case):
         lines.append("class L%d(%s):" % (li, base))
         body = []
         if lv.get("init", True):
-            body.append("def __init__(self):\n    object.__setattr__(self, 'x', 1)")
+            if case.get("aliases"):
+                # the constructor is an alias of a function with another name
+                body.append("def _ctor_impl(self):\n    object.__setattr__(self, 'x', 1)\n__init__ = _ctor_impl")
+            else:
+                body.append("def __init__(self):\n    object.__setattr__(self, 'x', 1)")
         for name in lv["members"]:
-            if SRC[name]:
+            if name == "__setattr__" and case.get("aliases"):
+                body.append("def _sa_impl(self, k, v): object.__setattr__(self, k, v)\n__setattr__ = _sa_impl")
+            elif SRC[name]:
                 body.append(SRC[name])
         if not body:
             body.append("pass")
